@@ -1,6 +1,7 @@
 """C09 — Literal <-> Python value mapping is faithful and normalisation is idempotent.  DESIGN §6 C09.
 
-Case kinds (one literal / one pair per case):
+Case kinds (one literal / one pair per case; `relit` = Literal(old[, datatype=dt][, lang=l]) made from an existing
+literal, the first branch of Literal.__new__: {"kind": "relit", "old": <lit>, "dt": name|None, "lang": tag?}):
   {"kind": "lex", "dt": <xsd local name>, "cps": [code points], "intent": "valid"|"mutated"}
   {"kind": "py",  "v": <python value spec>}
   {"kind": "eq",  "a": <lit>, "b": <lit>}      lit = {"dt": name|None, "cps": […], "norm": bool} | {"v": <python value spec>}
@@ -502,10 +503,14 @@ def _mk(litspec):
             return Literal(v, datatype=uri(sp["dt"]))
         return Literal(v)
     s = "".join(chr(c) for c in litspec["cps"])
+    if litspec.get("lang"):
+        return Literal(s, lang=litspec["lang"])
     return Literal(s, datatype=uri(litspec["dt"]), normalize=bool(litspec["norm"]))
 
 
 def _lit_modelled(litspec):
+    if litspec.get("lang"):
+        return False      # language tags are outside the Lean model
     if "v" in litspec:
         return py_modelled(litspec["v"])
     dt = litspec["dt"]
@@ -653,12 +658,106 @@ def run_eq(case):
             "stats": stats}
 
 
+def _relit_parts(case):
+    """(old literal, target datatype local name or None, keyword arguments) of a relit case"""
+    old = _mk(case["old"])
+    kw = {}
+    if case.get("dt"):
+        kw["datatype"] = uri(case["dt"])
+    if case.get("lang"):
+        kw["lang"] = case["lang"]
+    tdt = case.get("dt") or (None if old.datatype is None else local(old.datatype))
+    return old, tdt, kw
+
+
+def _eqres(a, b):
+    try:
+        r = a.eq(b)
+        return r, ("1" if r is True else "0" if r is False else "other")
+    except TypeError:
+        return None, "TypeError"
+
+
+def run_relit(case):
+    """Literal(old) / Literal(old, datatype=d2) / Literal(old, lang=l): the first branch of Literal.__new__"""
+    viol, stats = [], {"relit": 1, "relit_" + ("copy" if not case.get("dt") else "retype"): 1}
+    has_lang = bool(case["old"].get("lang") or case.get("lang"))
+    try:
+        old, tdt, kw = _relit_parts(case)
+    except Exception:  # noqa: BLE001
+        return {"obs": ["relit|raise"] if _lit_modelled(case["old"]) else ["unmodelled"], "viol": [], "nontrivial": False,
+                "key": "relit-old-raise", "stats": {"relit": 1, "relit_old_raise": 1}}
+    s = str(old)
+    modelled = (not has_lang and _lit_modelled(case["old"]) and (tdt is None or tdt in MODELLED)
+                and (not case.get("dt") or in_fragment(tdt, s)))
+    px = xsd_parse(tdt, s) if tdt in ALL_DT else None
+    valid = px is not None
+    try:
+        new = Literal(old, **kw)
+        u = new.datatype
+        both = new.language is not None and u is not None   # no such RDF term (and no reference literal to compare with)
+        if both:
+            viol.append(f"lang-datatype: Literal({old!r}, **{kw}) has the language tag {new.language!r} and the datatype {local(u)}")
+        n1 = new.normalize()
+        n2 = n1.normalize()
+        ref = None if both else (Literal(str(new), lang=new.language) if new.language
+                                 else Literal(str(new), datatype=u, normalize=False))
+        raised = None
+    except Exception as e:  # noqa: BLE001
+        raised = type(e).__name__
+    if raised:
+        obs = ["relit|raise"]
+        stats["relit_raise"] = 1
+        if valid or tdt is None:
+            viol.append(f"raise: Literal({old!r}, **{kw}) / normalize() raises {raised}")
+    else:
+        _, e_ref = _eqres(new, ref) if ref is not None else (None, "-")
+        r_old, e_old = _eqres(new, old)
+        line = (f"relit|{ill(new)}|{canon(new.value)}|{int(valid_for(tdt, str(new)))}|{canon(ref.value) if ref is not None else '-'}"
+                f"|{int(str(n2) == str(n1))}|{canon(n1.value)}|{e_ref}|{e_old}")
+        if SPELL:
+            line += "|" + cps_str(str(new)) + "|" + cps_str(str(n1))
+        obs = [line]
+        if valid:
+            xv = px[1]
+            stats["relit_valid"] = 1
+            if new.ill_typed is True:
+                viol.append(f"ill-typed: Literal({old!r}, **{kw}): {s!r} is a valid xsd:{tdt} form but ill_typed=True")
+            if not value_matches(tdt, xv, new.value):
+                viol.append(f"value: Literal({old!r}, **{kw}): {s!r}^^xsd:{tdt} has XSD value {xv!r} but .value is {new.value!r}")
+            for name, x in (("the new literal", new), ("normalize()", n1), ("normalize() twice", n2)):
+                p2 = xsd_parse(tdt, str(x))
+                if p2 is None:
+                    viol.append(f"norm-invalid: {name} of Literal({old!r}, **{kw}) is {str(x)!r}, not in the lexical space of xsd:{tdt}")
+                    break
+                if not same_xsd_value(tdt, xv, p2[1]):
+                    viol.append(f"norm-value: {name} of Literal({old!r}, **{kw}) is {str(x)!r}, a different value than {s!r}")
+                    break
+            if str(n2) != str(n1):
+                viol.append(f"norm-idem: normalising {n1!r} (from Literal({old!r}, **{kw})) changes it again")
+        # value-space equality holds whenever term equality does
+        for name, other, (r, res) in (("the literal built from its own lexical form", ref, _eqres(new, ref) if ref is not None else (True, "-")),
+                                      ("the literal it was made from", old, (r_old, e_old))):
+            if other is not None and new == other and r is not True:
+                viol.append(f"eq-term: Literal({old!r}, **{kw}) == {other!r} ({name}) but .eq() gives {res}")
+                break
+        if not kw and not (new == old):
+            stats["relit_copy_not_term_equal"] = 1
+    if not modelled:
+        obs = ["unmodelled"]
+        stats["unmodelled"] = 1
+    return {"obs": obs, "viol": viol, "nontrivial": valid or tdt is None,
+            "key": "relit:" + repr((case["old"], case.get("dt"), case.get("lang"))), "stats": stats}
+
+
 def run_impl(case):
     k = case["kind"]
     if k == "lex":
         return run_lex(case)
     if k == "py":
         return run_py(case)
+    if k == "relit":
+        return run_relit(case)
     return run_eq(case)
 
 
@@ -682,6 +781,11 @@ def model_lines(case):
         if not py_modelled(case["v"]):
             return pre + ["skip"]
         return pre + ["py " + py_model_words(case["v"])]
+    if k == "relit":
+        if case["old"].get("lang") or case.get("lang") or not _lit_modelled(case["old"]) or \
+                (case.get("dt") and case["dt"] not in MODELLED):
+            return pre + ["skip"]
+        return pre + [f"relit {case.get('dt') or '-'} " + _lit_words(case["old"])]
     if not (_lit_modelled(case["a"]) and _lit_modelled(case["b"])):
         return pre + ["skip"]
     return pre + ["eq " + _lit_words(case["a"]) + " " + _lit_words(case["b"])]
@@ -1027,6 +1131,46 @@ def _lit_for_eq(rng, fam):
     raise KeyError(fam)
 
 
+def gen_relit(rng):
+    """Literal(old[, datatype=d2][, lang=l]) for an existing literal `old` of any family"""
+    target = rng.choice(MODELLED + MODELLED + UNMODELLED_DT)
+    q = rng.random()
+    if q < 0.45:
+        # a plain / xsd:string literal whose text is (mostly) a form of the target datatype, then re-typed
+        s = gen_valid(rng, target)
+        if rng.random() < 0.35:
+            s = mutate(rng, target, s)
+        if target in ("token", "normalizedString", "string") and rng.random() < 0.6:
+            s = rng.choice([" ", "", "\t", "\n "]) + s.replace(" ", rng.choice([" ", "  ", " \t "]), 1) + rng.choice(["", " ", "\r"])
+        s = re.sub(r"([eE][+-]?[0-9]{3})[0-9]+", r"\1", s)
+        old = {"dt": rng.choice([None, None, "string"]), "cps": [ord(c) for c in s], "norm": True}
+        if rng.random() < 0.06:
+            old = {"dt": None, "cps": [ord(c) for c in s], "norm": True, "lang": rng.choice(["en", "de-CH"])}
+        return {"kind": "relit", "old": old, "dt": target}
+    if q < 0.7:
+        # a typed literal (either normalize setting) or a Python value, copied
+        old = ({"v": gen_pyspec(rng, bytes_ok=False)} if rng.random() < 0.4 else
+               {"dt": target, "cps": [ord(c) for c in re.sub(r"([eE][+-]?[0-9]{3})[0-9]+", r"\1", gen_valid(rng, target) if rng.random() < 0.8 else mutate(rng, target, gen_valid(rng, target)))],
+                "norm": rng.random() < 0.5})
+        return {"kind": "relit", "old": old, "dt": None}
+    if q < 0.78:
+        # language-tagged and plain literals copied, with or without a (new) language
+        s = gen_string(rng, "string")
+        old = {"dt": None, "cps": [ord(c) for c in s], "norm": True}
+        if rng.random() < 0.6:
+            old["lang"] = rng.choice(["en", "EN", "fr-BE"])
+        return {"kind": "relit", "old": old, "dt": None, **({"lang": rng.choice(["en", "de"])} if rng.random() < 0.5 else {})}
+    # a typed literal re-typed within / across families
+    fams = [list(INT_BOUNDS) + ["decimal"], ["string", "normalizedString", "token", "language", "anyURI"], DURS, DATEY, ["hexBinary", "string"]]
+    fam = rng.choice(fams)
+    d1, d2 = rng.choice(fam), rng.choice(fam)
+    s = gen_valid(rng, d1) if rng.random() < 0.85 else mutate(rng, d1, gen_valid(rng, d1))
+    if d1 in ("string",) and rng.random() < 0.5:
+        s = " " + s + "  x\t"
+    s = re.sub(r"([eE][+-]?[0-9]{3})[0-9]+", r"\1", s)
+    return {"kind": "relit", "old": {"dt": d1, "cps": [ord(c) for c in s], "norm": rng.random() < 0.5}, "dt": d2}
+
+
 def gen_case(rng, tier, i):
     r = rng.random()
     if r < 0.6:
@@ -1042,6 +1186,8 @@ def gen_case(rng, tier, i):
         return {"kind": "lex", "dt": dt, "cps": [ord(c) for c in s], "intent": intent}
     if r < 0.83:
         return {"kind": "py", "v": gen_pyspec(rng)}
+    if r < 0.9:
+        return gen_relit(rng)
     fam = rng.choice(["numeric", "numeric", "numeric", "string", "boolean", "duration", "dayTimeDuration", "date", "time", "dateTime", "hexBinary",
                       "float", "token", "normalizedString"])
     a = _lit_for_eq(rng, fam)
@@ -1094,6 +1240,15 @@ def shrink(case):
                 yield {**case, "v": {**sp, "c": "1"}}
             if sp["e"]:
                 yield {**case, "v": {**sp, "e": sp["e"] // 2}}
+    elif k == "relit":
+        ls = case["old"]
+        if "cps" in ls:
+            for i in range(len(ls["cps"])):
+                yield {**case, "old": {**ls, "cps": ls["cps"][:i] + ls["cps"][i + 1:]}}
+            if ls.get("dt") == "string":
+                yield {**case, "old": {**ls, "dt": None}}
+            if not ls.get("norm"):
+                yield {**case, "old": {**ls, "norm": True}}
     else:
         for side in ("a", "b"):
             ls = case[side]
@@ -1109,6 +1264,16 @@ def _tags(result):
 
 
 def _lex_info(case):
+    if case.get("kind") == "relit":
+        try:
+            oldl, dt, _kw = _relit_parts(case)
+        except Exception:  # noqa: BLE001
+            return None
+        if dt not in ALL_DT:
+            return None
+        s = str(oldl)
+        px = xsd_parse(dt, s)
+        return None if px is None else (dt, s, px[1], representable(dt, px[1]))
     if case.get("kind") != "lex":
         return None
     dt, s = case["dt"], "".join(chr(c) for c in case["cps"])
@@ -1151,10 +1316,14 @@ def _m_bytes(case, result):
 
 def _m_nan_eq(case, result):
     """NaN: term-equal literals whose values are not equal to themselves"""
-    if case.get("kind") != "eq" or _tags(result) != {"eq-term"}:
+    if case.get("kind") not in ("eq", "relit") or _tags(result) != {"eq-term"}:
         return False
     try:
-        a, b = _mk(case["a"]), _mk(case["b"])
+        if case["kind"] == "relit":
+            oldl, _dt, kw = _relit_parts(case)
+            a = b = Literal(oldl, **kw)
+        else:
+            a, b = _mk(case["a"]), _mk(case["b"])
     except Exception:  # noqa: BLE001
         return False
     return all(isinstance(x.value, (float, Decimal)) and x.value != x.value for x in (a, b))
